@@ -157,8 +157,16 @@ def link_shape(ck, prog, pv, pvn, stem, K, lb, hb, term_p, id_p, adds, direct):
                     st.extend(hb.succ[y])
         ck.ob("DOM", "link_%s_term/propagation" % stem, ok_neg, "link_%s_term (work-list form) %s" % (stem, "continues with the remaining work when an id was already present" if ok_neg else "RETURNS from the whole walk when one term already carries the id: terms still on the work list are never linked"), where=hb.where(line))
         fed = set()
+        FEED = ("extend", "push", "append", "extend_from_slice", "insert", "push_back", "push_front")
+
+        def feeds(t2):
+            if t2.callee.method in FEED:
+                return True
+            # a private work-list type with its own feeding method (`pending.defer(term.all_parents())`)
+            tb = prog.bodies.get(t2.callee.res or "")
+            return tb is not None and tb.kind in ("Fn", "AssocFn") and not (tb.exported or tb.reachable or tb.impl_trait) and any(x.callee.method in FEED for fb2 in prog.family(tb) for _, x in fb2.calls())
         for bi2, t2 in hb.calls():
-            if bi2 in blocks and t2.callee.method in ("extend", "push", "append", "extend_from_slice", "insert", "push_back") and len(t2.args) > 1:
+            if bi2 in blocks and len(t2.args) > 1 and feeds(t2):
                 fed |= field_names(pv.of_operand(hb, t2.args[1]), "HpoTermInternal") & {"parents", "all_parents", "children"}
         ck.ob("DOM", "link_%s_term/over-closure" % stem, bool(fed) and "children" not in fed, "the work list is fed with the term's %s" % (sorted(fed) or "nothing"), where=hb.where())
         ida = params_of(pvn.of_operand(hb, add_id_op(at0)), hb.id)
@@ -411,8 +419,14 @@ def run(ck, prog, ctx):
     def lifted(b, depth=3):
         if allowed.search(b.id):
             return []
-        if depth and b.kind in ("Fn", "AssocFn") and not (b.exported or b.reachable or b.impl_trait):
+        cs = None
+        if depth and b.kind == "AssocFn" and b.impl_trait and not b.impl_trait.startswith(("std::", "core::", "alloc::")) and not b.exported:
+            # a method of a crate trait implemented per kind (`<GeneId as AnnotationKey>::add_direct_term`), called through the type parameter
+            cs = [x for x in prog.production() for _, t_ in x.calls() if t_.callee.res is None and t_.callee.method == b.name and (t_.callee.trait or "") == b.impl_trait]
+            cs += [cb_ for cb_, _, _ in prog.callers_of(b.id)]
+        elif depth and b.kind in ("Fn", "AssocFn") and not (b.exported or b.reachable or b.impl_trait):
             cs = [cb_ for cb_, _, _ in prog.callers_of(b.id)]
+        if cs is not None:
             roots = []
             for cb_ in cs:
                 while cb_.kind == "Closure" and prog.bodies.get(cb_.id.rsplit("::{closure", 1)[0]) is not None:
